@@ -36,6 +36,7 @@ const (
 	KFor   = "for"   // KeyVar, ValVar, A=collection, Key (nil: tuple form), B2=value, C=condition (nil: none), Group
 	KCall  = "call"  // Name, Kids=args, Expand
 	KTmpl  = "tmpl"  // Parts; a plain string literal is a template with one literal part
+	KParen = "paren" // (A): redundant parentheses that are part of the tree (deep nesting classes, gen_scale.go)
 )
 
 // Template part kinds.
